@@ -1251,15 +1251,18 @@ impl StateMachine for FileStateMachine {
                     }
                 }
             }
+            // The applied index advances under the same write lock as the data: a reader that
+            // holds the read lock (scan_prefix) sees the data and the revision of one and the
+            // same apply, never new data with the previous revision.
+            if let Some(log_id) = highest_log_id {
+                debug!("State machine - updated last_applied: {:?}", log_id);
+                self.update_last_applied(log_id);
+            }
         } // Lock released immediately - no awaits inside!
 
-        // PHASE 4: Update last applied index and conditionally checkpoint.
+        // PHASE 4: conditionally checkpoint.
         // WAL (written in PHASE 2) is the primary crash-safety path.
         // Checkpoint snapshots full data periodically to bound WAL replay time on recovery.
-        if let Some(log_id) = highest_log_id {
-            debug!("State machine - updated last_applied: {:?}", log_id);
-            self.update_last_applied(log_id);
-        }
 
         self.wal_entries_since_checkpoint.fetch_add(chunk_len as u64, Ordering::Relaxed);
 
